@@ -282,6 +282,9 @@ class World:
         self.s2 = None
         self.tr.sessions.append(self.s)
         self.rec.attach(self.s)
+        self.nested = []
+        self.o = {}
+        self.keep = []              # strong references (listener-less worlds)
 
     def snapshot(self):
         """State predicates of the named objects (what an application can see without events)."""
@@ -295,8 +298,6 @@ class World:
             out[name] = [list(self.tr.flags(o)), bool(st.was_deleted), owner, mapped,
                          bool(sess is not None and o in sess)]
         return out
-        self.nested = []
-        self.o = {}
 
     def second_session(self):
         if self.s2 is None:
@@ -550,7 +551,7 @@ def raw_apply(w, name, on, expected_exc):
         elif name == "expunge":
             s.expunge(o)
         elif name == "merge":
-            s.merge(o)
+            w.keep.append(s.merge(o))
         elif name == "make_transient":
             make_transient(o)
         elif name == "mttd":
@@ -590,8 +591,8 @@ def raw_apply(w, name, on, expected_exc):
             if w.nested:
                 w.nested.pop().commit()
         elif name == "query":
-            s.scalars(select(w.P)).all()
-            s.scalars(select(w.C)).all()
+            w.keep.extend(s.scalars(select(w.P)).all())
+            w.keep.extend(s.scalars(select(w.C)).all())
         elif name == "s2_add":
             w.second_session().add(o)
         elif name == "s2_expunge":
@@ -609,6 +610,11 @@ def raw_apply(w, name, on, expected_exc):
                 s.rollback()
             except expected_exc:
                 raised += "+rollback-raised"
+    # the instrumented world keeps every instance it is told about alive (the tracker holds
+    # them); do the same here, otherwise the weak identity map alone makes the worlds differ
+    for ss in (w.s, w.s2):
+        if ss is not None:
+            w.keep.extend(ss.identity_map.values())
     w.record.append([name, on, raised, rolled, w.snapshot(), list(w.tr.evlog)])
 
 
@@ -648,8 +654,11 @@ def run_partial_listeners(ctx, rig, ref, config, cascade, expected_exc, listen, 
                               f"[flags, was_deleted, session, identity_map, in session]",
                               dict(where, obj=n, reference=a, observed=b))
                 break
-            want = [e for e in events if e[0] in sub]
-            if got[5] != want:
+            # (order inside one flush follows set iteration and is not documented; instances the
+            # library built itself have no stable name)
+            norm = lambda evs: sorted((e, n.rstrip("*?")) for e, n in evs)
+            want = norm(e for e in events if e[0] in sub)
+            if norm(got[5]) != want:
                 ctx.violation(f"{kind}:event-stream-differs-from-instrumented-run:{name}",
                               f"{name}({on}): registered subset saw {got[5]}, the reference stream restricted to it is {want}",
                               dict(where, reference=want, observed=got[5]))
